@@ -240,16 +240,93 @@ def shard(ctx, arg):
         ctx.sample({"units": ["a012", ], "model": repr(D.decode([0xA012]))})
 
 
+def shard_payloads(ctx, arg):
+    """the three payload pseudo-instructions (first unit 0x0100 / 0x0200 / 0x0300): length from the header, exact re-encoding, keys and relative
+    targets as SIGNED 32-bit values, element width / count / data"""
+    idx, count = arg
+    from androguard.core import dex
+    data, w = pool_model()
+    cm = dex.DEX(data).get_class_manager()
+    rng = ctx.rng("c01-payloads", idx)
+    I32 = [0, 1, -1, 2, 127, 128, 255, 256, 32767, 32768, 65535, 65536, 2 ** 31 - 1, -2 ** 31, -2 ** 31 + 1, -128, -32768, -65536]
+
+    def v32():
+        return rng.choice(I32) if rng.random() < 0.7 else rng.randrange(-2 ** 31, 2 ** 31)
+    for k in range(count):
+        kind = rng.choice(["packed", "sparse", "fill"])
+        ctx.ev()
+        ctx.count("payloads_" + kind)
+        try:
+            if kind == "packed":
+                n = rng.choice([0, 1, 2, 3, 7])
+                fk = v32()
+                if fk + n > 2 ** 31:
+                    fk = 2 ** 31 - n
+                tg = [v32() for _ in range(n)]
+                units = D.packed_switch_payload(fk, tg)
+                raw = D.units_to_bytes(units)
+                p = dex.PackedSwitch(cm, raw)
+                got = {"length": p.get_length(), "raw": bytes(p.get_raw()), "keys": list(p.get_keys()), "values": list(p.get_values()), "targets": list(p.get_targets()), "first_key": p.first_key}
+                want = {"length": len(raw), "raw": raw, "keys": [fk + i for i in range(n)], "values": [fk + i for i in range(n)], "targets": tg, "first_key": fk}
+                sig = ("packed", field_class(fk & 0xFFFFFFFF, 32, True), min(n, 3))
+            elif kind == "sparse":
+                n = rng.choice([0, 1, 2, 3, 7])
+                keys = sorted({v32() for _ in range(n)})
+                tg = [v32() for _ in keys]
+                units = D.sparse_switch_payload(keys, tg)
+                raw = D.units_to_bytes(units)
+                p = dex.SparseSwitch(cm, raw)
+                got = {"length": p.get_length(), "raw": bytes(p.get_raw()), "keys": list(p.get_keys()), "values": list(p.get_values()), "targets": list(p.get_targets())}
+                want = {"length": len(raw), "raw": raw, "keys": keys, "values": keys, "targets": tg}
+                sig = ("sparse", field_class(keys[0] & 0xFFFFFFFF, 32, True) if keys else "none", min(len(keys), 3))
+            else:
+                width = rng.choice([1, 2, 4, 8])
+                cnt = rng.choice([0, 1, 2, 3, 5, 16])
+                body = bytes(rng.randrange(256) for _ in range(width * cnt))
+                units = D.fill_array_payload(width, body)
+                raw = D.units_to_bytes(units)
+                p = dex.FillArrayData(cm, raw)
+                got = {"length": p.get_length(), "raw": bytes(p.get_raw()), "element_width": p.element_width, "size": p.size, "data": bytes(p.get_data())[: len(body)]}
+                want = {"length": len(raw), "raw": raw, "element_width": width, "size": cnt, "data": body}
+                sig = ("fill", width, min(cnt, 3), len(body) % 2)
+                if body and rng.random() < 0.3:
+                    # the buffer ends before the declared data does: the length is still the one the header fixes (the sweep relies on it to
+                    # report such a payload as exceeding the code)
+                    ctx.count("payloads_fill_truncated")
+                    short = raw[: 8 + rng.randrange(len(body))]
+                    try:
+                        pl = dex.FillArrayData(cm, short).get_length()
+                    except Exception:
+                        pl = len(raw)   # refusing a truncated payload is fine
+                    if pl != len(raw):
+                        ctx.violation("payload-fill-length-of-truncated-buffer", "get_length() of a fill-array-data payload whose buffer is shorter than its header declares is not the declared length",
+                                      {"got": pl, "want": len(raw), "width": width, "size": cnt, "buffer_len": len(short)})
+        except Exception as e:
+            ctx.violation("payload-%s-raises" % kind, "decoding a well-formed payload raises", {"kind": kind, "exc": exc_str(e)})
+            continue
+        ctx.sig(*sig)
+        for f in want:
+            if got[f] != want[f]:
+                ctx.violation("payload-%s-%s" % (kind, f.replace("_", "-")), "a field of a payload pseudo-instruction differs from the encoded value",
+                              {"kind": kind, "field": f, "got": got[f] if not isinstance(got[f], bytes) else got[f].hex(), "want": want[f] if not isinstance(want[f], bytes) else want[f].hex(), "payload": raw.hex()})
+                break
+
+
 def run(ctx):
     ctx.rule = ("dex.get_instruction(cm, op, bytes) for all 256 opcodes x all 256 high bytes of the first code unit (exhaustive first unit) x "
                 "remaining units from the boundary set {0000,0001,007F,0080,00FF,0100,7FFF,8000,8001,FF00,FFFE,FFFF} (thorough: full cross product for <=2 extra units) + random units; "
-                "indices inside the pools of a generated DEX are compared with the writer's pools; truncated buffers. "
+                "indices inside the pools of a generated DEX are compared with the writer's pools; truncated buffers; the three payload pseudo-instructions with boundary/random signed keys, targets, widths and data. "
                 "distinct non-trivial = distinct (opcode, per-field class in {0,max,min,-1,neg,pos,hi,lo})")
     ctx.assumptions = ["vf/model/dalvik.py opcode/format table transcribed from the Dalvik bytecode specification",
                        "fields the spec requires to be zero (10x/20t/30t/32x high byte) may be rejected or round-tripped; 35c/45cc with A>5 likewise",
                        "call_site/method_handle/proto indices: only the index value is compared"]
     # name/length table sanity against androguard: disagreements are findings, not reconciled
     ctx.run_shards(MOD, "shard", [[i * 16, (i + 1) * 16] for i in range(16)], timeout=3000)
+    n = 4000 if ctx.quick else 400000
+    ctx.run_shards(MOD, "shard_payloads", [[i, n // 8] for i in range(8)], timeout=3000)
+    ctx.require_counter("payloads_packed", 100)
+    ctx.require_counter("payloads_sparse", 100)
+    ctx.require_counter("payloads_fill", 100)
     ctx.exhaustive = True
     ctx.extra["exhaustive_part"] = "first code unit: all 65536 values"
     if ctx.counters.get("opcodes_covered", 0) != 256:
